@@ -448,6 +448,14 @@ func (fv *FnV) doInstr(st *State, ins ssa.Instruction) error {
 		return nil
 	case *ssa.Return:
 		return fv.doReturn(st, ins)
+	case *ssa.MakeChan:
+		r := fv.freshRef(st, "chan")
+		fv.vals[ins] = &SV{v: Val{r, sRef}, typ: ins.Type()}
+	case *ssa.Send:
+		fv.channelOp(st, "send on "+fv.siteText(ins.Pos(), "send"), ins.Pos())
+	case *ssa.Select:
+		fv.channelOp(st, "select", ins.Pos())
+		fv.vals[ins] = fv.freshTuple(st, ins.Type(), "select")
 	default:
 		panic(unsupported(fmt.Sprintf("instruction %T", ins)))
 	}
@@ -496,6 +504,15 @@ func (fv *FnV) doUnOp(st *State, ins *ssa.UnOp) error {
 		}
 		fv.vals[ins] = fv.fromTerm(v, t)
 		fv.markGuarded(ins, ins.X)
+	case token.ARROW: // receive
+		fv.channelOp(st, "receive from "+fv.siteText(ins.Pos(), "receive"), ins.Pos())
+		if tup, ok := ins.Type().(*types.Tuple); ok {
+			fv.vals[ins] = fv.freshTuple(st, tup, "recv")
+		} else {
+			n := fv.c.Fresh("recv", g.sortOf(ins.Type()))
+			fv.assume(st, fv.wf(n, ins.Type(), st.now))
+			fv.vals[ins] = fv.fromTerm(n, ins.Type())
+		}
 	case token.NOT:
 		fv.vals[ins] = &SV{v: Val{not(fv.val(ins.X).v.T), sBool}, typ: ins.Type()}
 	case token.SUB:
@@ -1336,4 +1353,36 @@ func (fv *FnV) rereadsForm(li *loopInfo, cl *Clause) {
 		o.Static = "fails: " + why
 		o.Script = ""
 	}
+}
+
+// channelOp: channels are outside the modelled subset. The operation itself is treated as a call into unknown code
+// (other goroutines run); what the checks cannot give any more is the argument that the function returns: the lock and
+// wait-group obligations cover mutexes and wait groups only, a blocking channel operation is outside them. That is
+// reported as one named obligation under the properties that promise the absence of hangs, instead of failing the
+// whole contract of the function.
+func (fv *FnV) channelOp(st *State, what string, pos token.Pos) {
+	o := fv.emit(st, "L", "no-channel-operations:"+what, fv.lockProps(), "false",
+		"the function blocks only on mutexes and wait groups (for which balance and wait obligations exist); a channel operation may block for ever and is outside the modelled subset", pos)
+	o.Static = "fails: " + what
+	o.Script = ""
+	ms := newModSet()
+	ms.external = true
+	fv.havoc(st, ms, "channel operation")
+	fv.g.abstracted["channel operation treated as a call into unknown code"]++
+}
+
+func (fv *FnV) freshTuple(st *State, t types.Type, hint string) *SV {
+	tup, ok := t.(*types.Tuple)
+	if !ok {
+		n := fv.c.Fresh(hint, fv.g.sortOf(t))
+		fv.assume(st, fv.wf(n, t, st.now))
+		return fv.fromTerm(n, t)
+	}
+	out := &SV{typ: tup}
+	for i := 0; i < tup.Len(); i++ {
+		n := fv.c.Fresh(fmt.Sprintf("%s!%d", hint, i), fv.g.sortOf(tup.At(i).Type()))
+		fv.assume(st, fv.wf(n, tup.At(i).Type(), st.now))
+		out.tup = append(out.tup, *fv.fromTerm(n, tup.At(i).Type()))
+	}
+	return out
 }
